@@ -91,6 +91,11 @@ inductive Qry where
   | qSpelled (t : Nat)            -- QueryIds  <fresh spelling of template t>: the answer of the canonical text
   -- round 9: the sort fields of one parsed query (k sort fields) taken by two callers which each append their own element
   | sortFieldsTwice (k : Nat)     -- q := Parse(sorted text with k fields); a := append(q.GetSortFields(), X); b := append(q.GetSortFields(), Y)
+  -- round 14: cursor-style readers.  A seekable id cursor (Store.IterateIds / IterateValidIds with filter number (k, a), see
+  -- `cursorPred`) is walked to its end; later — other read transactions and the writer may have run in between — the SAME
+  -- cursor is repositioned with Seek("a<x>") and walked to its end again
+  | cWalk (k a : Nat)             -- c := IterateIds(tx, Parse(filter k a)); for c.IsValid() { collect c.Current(); c.Next() }
+  | cSeek (k a x : Nat)           -- … the same cursor after its walk: c.Seek("a<x>"); walked to its end again
   deriving DecidableEq, Repr
 
 /-- the shared values slices of the harness (role numbers; deliberately not ascending, with a duplicate, empty, single) -/
@@ -154,6 +159,19 @@ def spelledPred (t : Nat) (e : Ent) : Bool :=
   | 8 => e.roles.isEmpty                               -- isEmpty(roles) or name = null
   | 9 => 1 < e.roles.length                            -- count(roles) > 1 skip 0 limit 100
   | _ => true
+
+/-- the filters of the cursor observations (harness/c18_cursor.go c18CursorFilter): kind k with argument a -/
+def cursorPred (k a : Nat) (e : Ent) : Bool :=
+  match k with
+  | 0 => a ≤ e.rank                       -- rank >= a
+  | 1 => e.roles.contains a               -- anyOf(roles) = "r<a>"
+  | 2 => e.groups.contains a              -- anyOf(groups) = "g<a>"
+  | 3 => e.groups.contains a              -- anyOf(groups.label) = "L<a>"          (composite set symbol)
+  | 4 => (e.id % 2 == 0) == (a == 1)      -- even = true / false                    (externally computed symbol)
+  | 5 => e.name == a                      -- name = "n<a>"
+  | 6 => mapVal 0 e.rank == a             -- tags.site.name = "s<a>"                (nested element of a map symbol)
+  | 7 => a ≤ e.rank                       -- rank >= a through IterateValidIds
+  | _ => e.groups.contains a              -- count(from groups where label = "L<a>" skip 0 limit 10) > 0   (sub-query cursor per row)
 
 /-- the externally computed symbols of the harness' store: pure functions of the row id -/
 def extEven (id : Nat) : Bool := id % 2 == 0
@@ -237,6 +255,8 @@ def evalQ (q : Qry) (v : Ver) : List Nat :=
     else if 14 ≤ j then evalSharedSort j v
     else (v.filter (sharedPred j)).map (·.id)
   | .sortFieldsTwice k => SortFields.twoCallers k
+  | .cWalk k a => (v.filter (cursorPred k a)).map (·.id)
+  | .cSeek k a x => ((v.filter (cursorPred k a)).map (·.id)).filter (x ≤ ·)
   | .qSpelled t =>
     if t == 7 then (v.foldl (fun acc e => insertTop e acc) []).map (·.id)      -- true sort by rank desc limit none
     else (v.filter (spelledPred t)).map (·.id)
